@@ -1215,7 +1215,23 @@ func (j *Job) assertStat(label string) *AssertStat {
 	return a
 }
 
+func (j *Job) labelActive(label string) bool {
+	if len(j.labels) == 0 {
+		return true
+	}
+	for _, p := range j.labels {
+		if strings.HasPrefix(label, p) {
+			return true
+		}
+	}
+	return false
+}
+
 func (st *State) assert(c Value, label, kf string, inRegion Value) status {
+	if !st.job.labelActive(label) {
+		// obligations of other properties are not evaluated by this check; the path continues where they hold
+		return st.assume(c)
+	}
 	as := st.job.assertStat(label)
 	switch x := c.(type) {
 	case bool:
